@@ -13,6 +13,10 @@
 //                                        W3 free everything; prints `T step ...` records with what the shim saw
 //                                        and what is expected, and F records of the real segment/arenas around
 //                                        the non-forced purge.
+//   t_purge S <seed> <delay> <decommits> <rounds>  scattered page frees inside one segment (pending purge mask with runs in several
+//                                        64-bit words, positions biased to the word boundaries), virtual clock, non-forced
+//                                        activity; prints `T scatter ...` records (per-slice oracles: early / missing /
+//                                        livehit / content) and F records of the real mi_segment_try_purge.
 //   t_purge X <seed> / t_purge X2 <seed> the two regression scenarios of `arena-global-expiry-reset` (two arenas; one arena
 //                                        with a forced collect in the history): a pending arena must be purged by non-forced passes.
 #include REPO_STATIC
@@ -525,6 +529,337 @@ static void workloads(long delay, int decommits) {
   printf("T total madvise=%zu mprotect=%zu mmap=%zu munmap=%zu\n", shim_count(SHIM_MADVISE), shim_count(SHIM_MPROTECT), shim_count(SHIM_MMAP), shim_count(SHIM_MUNMAP));
 }
 
+// ---------------------------------------------------------------- S: scattered page frees -> purge masks with runs in several words
+// One round: fill a fresh 32 MiB segment with small (1 slice), medium (8 slices) and large (2..24 slices) pages in a PRNG
+// order, free a PRNG-chosen set of whole pages whose slice positions are biased to the 64-bit word boundaries of the commit
+// mask (62..65, 126..129, ...) and otherwise spread over the whole segment (so that the pending purge mask has runs in
+// different words, in both orders of their bit positions), then advance the virtual clock and perform NON-forced activity
+// (a page free + mi_collect(false), a direct mi_segment_try_purge(seg,false), a page allocation).  Oracles, all from the
+// harness' own bookkeeping (per slice of the segment) and the shim's call log:
+//   early    a freed page was handed to a purging madvise before the delay had passed
+//   missing  a freed page was NOT handed to a purging madvise although the (extended) delay has passed and activity happened
+//   livehit  a purging madvise / mprotect(PROT_NONE) touched a slice that holds the segment header or a page in use
+//   content  a live block lost its contents
+// Each check prints one `T scatter ...` record; tools/props/C18.py turns failing ones into witnesses.
+#define SSL MI_SEGMENT_SLICE_SIZE
+enum { ST_OTHER = 0, ST_INFO, ST_FREE0, ST_LIVE, ST_VICTIM, ST_KEPTFREE };
+typedef struct { mi_segment_t* seg; size_t slice, count; int kind; int nblk; int state; } spg_t;   // kind 0 small 1 medium 2 large; state 0 live 1 freed
+typedef struct { uint8_t* p; size_t size; int pg; int live; } sblk_t;
+#define SMAXPG 2048
+#define SMAXBLK 16384
+static spg_t SP[SMAXPG]; static int NSP;
+static sblk_t SB[SMAXBLK]; static int NSB;
+static uint8_t SST[MI_SLICES_PER_SEGMENT];                 // per slice of the target segment: ST_*
+static uint8_t SCOV[MI_SEGMENT_SIZE / SHIM_PAGE];          // per 4 KiB page: 1 purging madvise, 2 mprotect(PROT_NONE)
+static char SH[1 << 16]; static size_t SHL;                // history string
+static void sh(const char* fmt, ...) {
+  va_list ap; va_start(ap, fmt);
+  int n = vsnprintf(SH + SHL, sizeof(SH) - SHL, fmt, ap);
+  va_end(ap);
+  if (n > 0 && SHL + (size_t)n < sizeof(SH) - 1) SHL += (size_t)n;
+}
+static void s_fill(sblk_t* b, int idx) {
+  const size_t n = (b->size < 64 ? b->size : 32);
+  for (size_t k = 0; k < n; k++) { b->p[k] = (uint8_t)(0x80 | ((idx * 7 + (int)k) & 0x7f)); b->p[b->size - 1 - k] = (uint8_t)(0x80 | ((idx * 13 + (int)k) & 0x7f)); }
+}
+static int s_intact(const sblk_t* b, int idx) {
+  const size_t n = (b->size < 64 ? b->size : 32);
+  for (size_t k = 0; k < n; k++) { if (b->p[k] != (uint8_t)(0x80 | ((idx * 7 + (int)k) & 0x7f)) || b->p[b->size - 1 - k] != (uint8_t)(0x80 | ((idx * 13 + (int)k) & 0x7f))) return 0; }
+  return 1;
+}
+static int s_alloc(size_t size, int kind) {          // returns the page index of the new block, -1 on failure
+  if (NSB >= SMAXBLK || NSP >= SMAXPG - 1) return -1;
+  uint8_t* p = (uint8_t*)mi_malloc(size);
+  if (p == NULL) return -1;
+  uint8_t* start; size_t len; page_span(p, &start, &len);
+  mi_segment_t* seg = _mi_ptr_segment(p);
+  const size_t slice = (size_t)(start - (uint8_t*)seg) / SSL;
+  int pg = -1;
+  for (int i = NSP - 1; i >= 0; i--) if (SP[i].seg == seg && SP[i].slice == slice && SP[i].state == 0) { pg = i; break; }
+  if (pg < 0) { pg = NSP++; SP[pg].seg = seg; SP[pg].slice = slice; SP[pg].count = len / SSL; SP[pg].kind = kind; SP[pg].nblk = 0; SP[pg].state = 0; }
+  SP[pg].nblk++;
+  SB[NSB].p = p; SB[NSB].size = size; SB[NSB].pg = pg; SB[NSB].live = 1;
+  s_fill(&SB[NSB], NSB);
+  NSB++;
+  return pg;
+}
+static void s_free_page(int pg) {                    // free every block of a page
+  for (int i = 0; i < NSB; i++) if (SB[i].live && SB[i].pg == pg) { mi_free(SB[i].p); SB[i].live = 0; }
+  SP[pg].state = 1;
+}
+static void s_coverage(mi_segment_t* seg, size_t from) {
+  memset(SCOV, 0, sizeof(SCOV));
+  const uint8_t* base = (const uint8_t*)seg;
+  const size_t nlog = shim_log_count();
+  for (size_t k = from; k < nlog; k++) {
+    shim_call_t c; shim_log_get(k, &c);
+    uint8_t bit;
+    if (c.err != 0) continue;
+    if (c.kind == SHIM_MADVISE && (c.arg == 4 /*MADV_DONTNEED*/ || c.arg == 8 /*MADV_FREE*/)) bit = 1;
+    else if (c.kind == SHIM_MPROTECT && c.arg == 0 /*PROT_NONE*/) bit = 2;
+    else continue;
+    const uint8_t* lo = (const uint8_t*)c.addr; const uint8_t* hi = lo + c.len;
+    if (hi <= base || lo >= base + MI_SEGMENT_SIZE) continue;
+    if (lo < base) lo = base;
+    if (hi > base + MI_SEGMENT_SIZE) hi = base + MI_SEGMENT_SIZE;
+    for (size_t pg = (size_t)(lo - base) / SHIM_PAGE; pg < ((size_t)(hi - base) + SHIM_PAGE - 1) / SHIM_PAGE; pg++) SCOV[pg] |= bit;
+  }
+}
+static int slice_cov(size_t s, int* any) {           // 1 when every 4 KiB page of the slice was handed to a purging madvise
+  const size_t per = SSL / SHIM_PAGE; int all = 1; *any = 0;
+  for (size_t k = 0; k < per; k++) { if (SCOV[s * per + k] & 1) *any |= 1; else all = 0; if (SCOV[s * per + k] & 2) *any |= 2; }
+  return all;
+}
+static void print_runs(const uint8_t* flag) {        // flag[0..511] -> "a+n,b+m" or "-"
+  int first = 1;
+  for (size_t i = 0; i < MI_SLICES_PER_SEGMENT; ) {
+    if (!flag[i]) { i++; continue; }
+    size_t j = i; while (j < MI_SLICES_PER_SEGMENT && flag[j]) j++;
+    printf("%s%zu+%zu", first ? "" : ",", i, j - i); first = 0; i = j;
+  }
+  if (first) printf("-");
+}
+static void print_words(const uint8_t* flag) {       // the 8 mask words with the bits of the flagged slices
+  for (size_t w = 0; w < MI_COMMIT_MASK_FIELD_COUNT; w++) {
+    uint64_t x = 0; for (size_t b = 0; b < 64; b++) if (w * 64 + b < MI_SLICES_PER_SEGMENT && flag[w * 64 + b]) x |= ((uint64_t)1 << b);
+    printf("%s%llx", w ? "." : "", U(x));
+  }
+}
+static int s_round_no; static uint64_t s_seed; static mi_msecs_t s_t0; static size_t s_mark; static char s_victims[4096]; static char s_layout[16384];
+static long s_deadline_rel;
+static int s_partial;        // this round filled only a part of the segment: a page allocation finds free slices that were never used
+static void s_check(mi_segment_t* seg, const char* step, const char* expect) {
+  static uint8_t early[MI_SLICES_PER_SEGMENT], missing[MI_SLICES_PER_SEGMENT], livehit[MI_SLICES_PER_SEGMENT], want[MI_SLICES_PER_SEGMENT];
+  s_coverage(seg, s_mark);
+  size_t nwant = 0;
+  for (size_t s = 0; s < MI_SLICES_PER_SEGMENT; s++) {
+    int any; const int all = slice_cov(s, &any);
+    want[s] = (SST[s] == ST_VICTIM); nwant += want[s];
+    early[s] = (SST[s] == ST_VICTIM && any != 0);
+    missing[s] = (SST[s] == ST_VICTIM && !all);
+    livehit[s] = ((SST[s] == ST_INFO || SST[s] == ST_LIVE || SST[s] == ST_OTHER) && any != 0);
+  }
+  int cbad = 0, cfirst = -1;
+  for (int i = 0; i < NSB; i++) if (SB[i].live && !s_intact(&SB[i], i)) { if (cbad == 0) cfirst = i; cbad++; }
+  printf("T scatter seed=%llu round=%d step=%s expect=%s delay=%ld decommits=%d extend=%ld since_free=%lld deadline_rel=%ld expire_rel=%lld nvictim_slices=%zu",
+         U(s_seed), s_round_no, step, expect, mi_option_get(mi_option_purge_delay), mi_option_is_enabled(mi_option_purge_decommits) ? 1 : 0,
+         mi_option_get(mi_option_purge_extend_delay), (long long)(shim_clock_now_ms() - s_t0), s_deadline_rel,
+         (long long)(seg->purge_expire == 0 ? 0 : seg->purge_expire - s_t0), nwant);
+  printf(" pending="); print_runs(want); printf(" pending_words="); print_words(want);
+  printf(" early="); print_runs(early); printf(" missing="); print_runs(missing); printf(" livehit="); print_runs(livehit);
+  printf(" content_bad=%d content_first=", cbad);
+  if (cfirst >= 0) printf("block%d@slice%zu+%zu", cfirst, SP[SB[cfirst].pg].slice, (size_t)(SB[cfirst].p - ((uint8_t*)SP[SB[cfirst].pg].seg + SP[SB[cfirst].pg].slice * SSL))); else printf("-");
+  printf(" impl_purge_mask="); for (int w = 0; w < MI_COMMIT_MASK_FIELD_COUNT; w++) printf("%s%llx", w ? "." : "", U(seg->purge_mask.mask[w]));
+  printf(" victims=%s layout=%s history=%s\n", s_victims, s_layout, SH);
+}
+static int s_page_at(mi_segment_t* seg, size_t slice) {     // live page of ours containing that slice of the target
+  for (int i = 0; i < NSP; i++) if (SP[i].seg == seg && SP[i].state == 0 && SP[i].slice <= slice && slice < SP[i].slice + SP[i].count) return i;
+  return -1;
+}
+static int s_pick_kept(mi_segment_t* seg) {                 // a random live page of ours in the target
+  int cand[SMAXPG]; int n = 0;
+  for (int i = 0; i < NSP; i++) if (SP[i].seg == seg && SP[i].state == 0) cand[n++] = i;
+  return (n == 0 ? -1 : cand[prng_below(&G, (size_t)n)]);
+}
+static int s_live_pages(mi_segment_t* seg) { int n = 0; for (int i = 0; i < NSP; i++) if (SP[i].seg == seg && SP[i].state == 0) n++; return n; }
+static const char KINDC[3] = { 's', 'm', 'L' };
+// non-forced activity; returns the number of additional purge schedules (page frees) it caused in the target
+static int s_activity(mi_segment_t* seg, int kind) {
+  const long long rel = (long long)(shim_clock_now_ms() - s_t0);
+  if (kind == 0 && s_live_pages(seg) > 2) {
+    const int pg = s_pick_kept(seg);
+    for (size_t s = SP[pg].slice; s < SP[pg].slice + SP[pg].count; s++) SST[s] = ST_KEPTFREE;
+    s_free_page(pg);
+    mi_collect(false);
+    sh("t+%lld:free-page@%zu+%zu%c,mi_collect(false);", rel, SP[pg].slice, SP[pg].count, KINDC[SP[pg].kind]);
+    return 1;
+  }
+  else if (kind == 2) {
+    // a page allocation: a size class that was not used in this round, so a fresh page is needed
+    static const size_t fresh[] = { 4096, 2048, 6144, 32768, 49152, 200000, 2 * 1024 * 1024 };
+    const size_t size = (s_partial && prng_below(&G, 4) != 0 ? fresh[3 + prng_below(&G, 4)] : fresh[prng_below(&G, sizeof(fresh) / sizeof(fresh[0]))]);
+    const int before = NSP;
+    const int pg = s_alloc(size, size <= MI_SMALL_OBJ_SIZE_MAX ? 0 : size <= MI_MEDIUM_OBJ_SIZE_MAX ? 1 : 2);
+    if (pg >= before && SP[pg].seg == seg) {
+      int reused = 0;
+      // free slices that were coalesced with a freed page are scheduled together with it: look at the whole free run around the new page
+      size_t lo = SP[pg].slice, hi = SP[pg].slice + SP[pg].count;
+      while (lo > 0 && SST[lo - 1] == ST_FREE0) lo--;
+      while (hi < MI_SLICES_PER_SEGMENT && SST[hi] == ST_FREE0) hi++;
+      if (lo > 0 && (SST[lo - 1] == ST_VICTIM || SST[lo - 1] == ST_KEPTFREE)) reused = 1;
+      if (hi < MI_SLICES_PER_SEGMENT && (SST[hi] == ST_VICTIM || SST[hi] == ST_KEPTFREE)) reused = 1;
+      for (size_t s = SP[pg].slice; s < SP[pg].slice + SP[pg].count; s++) { if (SST[s] == ST_VICTIM || SST[s] == ST_KEPTFREE) reused = 1; SST[s] = ST_LIVE; }
+      sh("t+%lld:mi_malloc(%zu)->new-page@%zu+%zu%s;", rel, size, SP[pg].slice, SP[pg].count, reused ? "(reuses-freed-slices)" : "");
+      return reused ? -1 : -2;     // -1: pending slices were taken back (the expiry is pushed to now+delay); -2: a page allocation in the segment that took nothing back
+    }
+    sh("t+%lld:mi_malloc(%zu)->%s;", rel, size, pg < 0 ? "failed" : pg >= before ? "new-page-in-another-segment" : "existing-page");
+    return 0;
+  }
+  else {
+    f_real_segment_try_purge(seg);
+    sh("t+%lld:mi_segment_try_purge(seg,false);", rel);
+    return 0;
+  }
+}
+static int cmp_pg(const void* a, const void* b) { const spg_t* x = &SP[*(const int*)a]; const spg_t* y = &SP[*(const int*)b]; return (x->slice < y->slice ? -1 : x->slice > y->slice ? 1 : 0); }
+
+static void scatter_round(long delay) {
+  NSP = 0; NSB = 0; SHL = 0; SH[0] = 0;
+  const long ext = mi_option_get(mi_option_purge_extend_delay);
+  // ---- layout
+  const size_t goal = (prng_below(&G, 4) == 0 ? 150 + prng_below(&G, 350) : 520 + prng_below(&G, 30));
+  s_partial = (goal < 500);
+  size_t total = 0; int kind = (int)prng_below(&G, 3);
+  while (total < goal && NSB < SMAXBLK - 200 && NSP < SMAXPG - 40) {
+    const size_t k = prng_below(&G, 10);
+    kind = (k < 5 ? 0 : k < 7 ? 1 : 2);
+    size_t nblocks, size;
+    if (kind == 0) { nblocks = 8 * (1 + prng_below(&G, prng_below(&G, 3) == 0 ? 70 : 12)); size = 8192; }
+    else if (kind == 1) { nblocks = 8 * (1 + prng_below(&G, 3)); size = 65536; }
+    else { nblocks = 1 + prng_below(&G, 3); size = 0; }
+    for (size_t b = 0; b < nblocks; b++) {
+      const int before = NSP;
+      const size_t sz = (kind == 2 ? (prng_below(&G, 3) == 0 ? 600000 + prng_below(&G, 900000) : 70000 + prng_below(&G, 400000)) : size);
+      if (s_alloc(sz, kind) < 0) { total = goal; break; }
+      if (NSP > before) total += SP[NSP - 1].count;
+    }
+  }
+  // the target: the segment that holds most of our slices
+  mi_segment_t* seg = NULL; size_t best = 0;
+  for (int i = 0; i < NSP; i++) {
+    if (SP[i].seg == seg) continue;
+    size_t n = 0; for (int j = 0; j < NSP; j++) if (SP[j].seg == SP[i].seg) n += SP[j].count;
+    if (n > best) { best = n; seg = SP[i].seg; }
+  }
+  if (seg == NULL || seg->kind != MI_SEGMENT_NORMAL || mi_segment_size(seg) != MI_SEGMENT_SIZE) { printf("T info wl=scatter round=%d setup=0\n", s_round_no); goto cleanup; }
+  memset(SST, ST_OTHER, sizeof(SST));
+  for (size_t s = 0; s < seg->segment_info_slices; s++) SST[s] = ST_INFO;
+  {
+    const mi_slice_t* end = mi_segment_slices_end(seg);
+    const mi_slice_t* sl = &seg->slices[0];
+    while (sl < end && sl->slice_count > 0) {
+      const size_t idx = (size_t)(sl - seg->slices);
+      if (sl->block_size == 0) { for (size_t s = idx; s < idx + sl->slice_count && s < MI_SLICES_PER_SEGMENT; s++) SST[s] = ST_FREE0; }
+      sl += sl->slice_count;
+    }
+  }
+  int order[SMAXPG]; int npg = 0;
+  for (int i = 0; i < NSP; i++) if (SP[i].seg == seg) { order[npg++] = i; for (size_t s = SP[i].slice; s < SP[i].slice + SP[i].count; s++) SST[s] = ST_LIVE; }
+  qsort(order, (size_t)npg, sizeof(int), cmp_pg);
+  {
+    size_t L = 0; s_layout[0] = 0;
+    for (int i = 0; i < npg; ) {
+      const spg_t* a = &SP[order[i]]; int j = i + 1;
+      if (a->kind != 2) while (j < npg && SP[order[j]].kind == a->kind && SP[order[j]].slice == SP[order[j - 1]].slice + SP[order[j - 1]].count) j++;
+      int n = snprintf(s_layout + L, sizeof(s_layout) - L, "%s%zu+%zu%c", L ? "," : "", a->slice, SP[order[j - 1]].slice + SP[order[j - 1]].count - a->slice, KINDC[a->kind]);
+      if (n > 0 && L + (size_t)n < sizeof(s_layout) - 1) L += (size_t)n;
+      i = j;
+    }
+  }
+  if (npg < 6) { printf("T info wl=scatter round=%d setup=0\n", s_round_no); goto cleanup; }
+  // ---- victims: whole pages, positions biased to the word boundaries of the mask
+  {
+    static const int counts[] = { 2, 2, 2, 3, 3, 4, 5, 6, 8, 12 };
+    int nv = counts[prng_below(&G, 10)]; if (nv > npg - 3) nv = npg - 3;
+    int vict[16]; int n = 0; size_t L = 0; s_victims[0] = 0;
+    for (int tries = 0; n < nv && tries < 200; tries++) {
+      size_t s;
+      if (prng_below(&G, 2) == 0) { const size_t w = 1 + prng_below(&G, 7); s = w * 64 + prng_below(&G, 4) - 2; }
+      else s = 1 + prng_below(&G, MI_SLICES_PER_SEGMENT - 1);
+      int pg = s_page_at(seg, s);
+      if (pg < 0) continue;
+      int dup = 0; for (int i = 0; i < n; i++) if (vict[i] == pg) dup = 1;
+      if (dup) continue;
+      vict[n++] = pg;
+      if (n < nv && prng_below(&G, 3) == 0) {      // sometimes the neighbour too: a run that crosses the boundary
+        const size_t s2 = (prng_below(&G, 2) ? SP[pg].slice + SP[pg].count : SP[pg].slice - 1);
+        const int pg2 = (s2 < MI_SLICES_PER_SEGMENT ? s_page_at(seg, s2) : -1);
+        int dup2 = (pg2 < 0); for (int i = 0; i < n; i++) if (vict[i] == pg2) dup2 = 1;
+        if (!dup2) vict[n++] = pg2;
+      }
+    }
+    if (n < 2) { printf("T info wl=scatter round=%d setup=0\n", s_round_no); goto cleanup; }
+    shim_reset_log();
+    s_mark = shim_log_count(); s_t0 = shim_clock_now_ms();
+    sh("t+0:free-pages[");
+    for (int i = 0; i < n; i++) {
+      const spg_t* v = &SP[vict[i]];
+      for (size_t s = v->slice; s < v->slice + v->count; s++) SST[s] = ST_VICTIM;
+      int m = snprintf(s_victims + L, sizeof(s_victims) - L, "%s%zu+%zu%c", L ? "," : "", v->slice, v->count, KINDC[v->kind]);
+      if (m > 0 && L + (size_t)m < sizeof(s_victims) - 1) L += (size_t)m;
+      sh("%s%zu+%zu%c", i ? "," : "", v->slice, v->count, KINDC[v->kind]);
+      s_free_page(vict[i]);
+    }
+    mi_collect(false);                 // frees pages that were only retired: every victim page is free from t0 on
+    sh("],mi_collect(false);");
+    int nsched = n;
+    s_deadline_rel = (delay > 0 ? delay + nsched * ext : 0);
+    s_check(seg, "free", delay == 0 ? "all" : "none");
+    if (delay > 0) {
+      if (prng_below(&G, 2) == 0) {
+        shim_clock_set_ms(s_t0 + delay - 1);
+        const int r = s_activity(seg, prng_below(&G, 2) ? 0 : 1);
+        if (r > 0) nsched += r;
+        s_deadline_rel = delay + nsched * ext;
+        s_check(seg, "activity-before-delay", "none");
+      }
+      if (prng_below(&G, 3) == 0) {
+        // the exact expiry, as the segment recorded it: nothing one ms earlier, everything at that ms
+        const mi_msecs_t e = seg->purge_expire;
+        if (e >= s_t0 + delay && e <= s_t0 + delay + nsched * ext) {
+          shim_clock_set_ms(e - 1);
+          s_activity(seg, 1);
+          s_check(seg, "try_purge-before-expiry", "none");
+          shim_clock_set_ms(e);
+          s_activity(seg, 1);
+          s_check(seg, "try_purge-at-expiry", "all");
+        }
+        else s_check(seg, "expiry-range", "expiry");
+      }
+      else {
+        shim_clock_set_ms(s_t0 + s_deadline_rel + ext + 1 + (mi_msecs_t)prng_below(&G, (size_t)(3 * delay)));
+        int k = (s_partial && prng_below(&G, 2) == 0 ? 2 : (int)prng_below(&G, 3));
+        int r = s_activity(seg, k);
+        if (k == 2 && r != -2) {
+          // the allocation took pending slices back (expiry pushed to now + delay) or did not touch the segment:
+          // later, a page free in the segment
+          if (r == -1) s_deadline_rel = (long)(shim_clock_now_ms() - s_t0) + delay;
+          shim_clock_set_ms(s_t0 + s_deadline_rel + ext + 1 + (mi_msecs_t)prng_below(&G, (size_t)delay));
+          k = 0; r = s_activity(seg, 0);
+          if (r == 0) s_activity(seg, 1);
+        }
+        else if (k == 0 && r == 0) s_activity(seg, 1);
+        s_check(seg, k == 0 ? "page-free-after-delay" : k == 1 ? "try_purge-after-delay" : "page-alloc-after-delay", "all");
+      }
+    }
+    else if (delay < 0) {
+      shim_clock_advance_ms(100000);
+      s_activity(seg, 0); s_activity(seg, 2); s_activity(seg, 1);
+      s_check(seg, "activity-much-later", "none");
+    }
+    else {
+      s_activity(seg, 0);
+      s_check(seg, "page-free", "all");
+    }
+  }
+cleanup:
+  for (int i = 0; i < NSB; i++) if (SB[i].live) { mi_free(SB[i].p); SB[i].live = 0; }
+  mi_collect(true);
+  shim_clock_advance_ms(10);
+}
+static void scatter(long delay, int decommits, int rounds) {
+  mi_option_set(mi_option_purge_delay, delay);
+  mi_option_set(mi_option_purge_decommits, decommits);
+  printf("T config wl=scatter delay=%ld decommits=%d mult=%ld extend=%ld rounds=%d\n", delay, decommits, mi_option_get(mi_option_arena_purge_mult), mi_option_get(mi_option_purge_extend_delay), rounds);
+  void* warm = mi_malloc(64); mi_free(warm);
+  mi_collect(true);                     // every round starts without any segment
+  shim_clock_advance_ms(10);
+  for (s_round_no = 0; s_round_no < rounds; s_round_no++) {
+    if (s_round_no % 4 == 3) mi_option_set(mi_option_purge_extend_delay, (long)prng_below(&G, 4)); else mi_option_set(mi_option_purge_extend_delay, 1);
+    scatter_round(delay);
+  }
+}
+
 // ---------------------------------------------------------------- X: regression scenarios for `arena-global-expiry-reset`
 // (repaired by c59c73f): an arena whose own expiry had not passed when a pass ran must still be purged by later
 // NON-forced passes.  X1: two arenas.  X2: the default single arena with one forced collect in the history.
@@ -601,6 +936,13 @@ int main(int argc, char** argv) {
     long delay = (argc > 3 ? atol(argv[3]) : 10);
     int dec = (argc > 4 ? atoi(argv[4]) : 1);
     workloads(delay, dec);
+  }
+  else if (mode[0] == 'S') {
+    long delay = (argc > 3 ? atol(argv[3]) : 10);
+    int dec = (argc > 4 ? atoi(argv[4]) : 1);
+    int rounds = (argc > 5 ? atoi(argv[5]) : 20);
+    s_seed = seed;
+    scatter(delay, dec, rounds);
   }
   else if (mode[1] == '2') {
     witness_single_arena();
